@@ -18,7 +18,7 @@ type c16Case struct {
 	Cursor int      `json:"cursor"` // cursor position (runes) before the kill
 	Kills  []string `json:"kills"`  // kill commands by name (the last one is judged with the yank)
 	NumArg string   `json:"numarg"`
-	Region int      `json:"region"` // for kill-region: the mark is set this many characters before
+	Region int      `json:"region"`          // for kill-region: the mark is set this many characters before
 	Moves  []string `json:"moves,omitempty"` // long sequences: the motion between two kills
 	// Emacs: after the yank, commands that change the buffer without killing, then a second yank
 	Post []string `json:"post,omitempty"`
